@@ -8,6 +8,10 @@ CLAIMED = {
      technique='deterministic simulation: seeded operation histories (+ systematic op-sequence tree) with refused-operation faults, checked op-by-op against a sequential queue model per shard',
      text='Seeded simulation of insert/sample/size histories on the real Queue, UniformSamplingQueue, PmapWrapper and PjitWrapper (4 forced host devices), every operation compared exactly with a list+cursor reference model per shard; records carry unique serials and checksums; refused operations are injected between accepted ones. Sampled exploration (plus completely walked small sub-spaces, stated in the evidence); a clean batch is evidence, not proof.',
      note='Trusted: the 40-line QueueModel; jax CPU with pinned XLA flags. Assumes insert sizes are multiples of the shard count and no outer jit around insert/sample.'),
+  'C15': dict(engine='episodes', design='5/C15',
+     technique='deterministic simulation: seeded per-member termination/reward schedules (all 2^8 sub-step masks as a 256-member batch + random histories), external resets and a simulated wall clock, checked step-by-step against a per-member sequential episode model',
+     text='The real training.wrap / envs.create wrapper stacks, EvalWrapper, actor_step, generate_unroll and Evaluator are driven by a scripted environment whose terminations (also in the middle of an action repeat, on consecutive steps, exactly at the time limit) and rewards are decided by the seeded scheduler; every wrapped step of every member is compared exactly with a 60-line reference model, episode lengths with an independent closed form, Evaluator metrics with the model under two simulated clock schedules. Sampled exploration plus completely covered 2^8 mask sub-space per listed configuration.',
+     note='Trusted: EpisodeModel and ScriptEnv (stubs written for the check); termination is sticky within an episode; r not dividing L is read as cut at the first wrapped step reaching episode_length; timing metrics are not asserted.'),
 }
 
 NA = {
